@@ -60,6 +60,7 @@ type Post struct {
 	Perm   map[string]string   `json:"perm"`
 	Status map[string]string   `json:"status"`
 	Req    map[string]string   `json:"req"`
+	Rgen   map[string]int      `json:"rgen"` // key generation (1-based) a pending join request was filed under, else 0
 	Inv    map[string]InvState `json:"inv"`
 	Opts   string              `json:"opts"`
 	Ng     int                 `json:"ng"`
@@ -72,7 +73,7 @@ func (p *Post) Digest(accSeq, invIds []string) string {
 		if p.Ent[a] {
 			e = "+"
 		}
-		fmt.Fprintf(&b, "%s%s:%s/%s/%s ", e, a, p.Perm[a], p.Status[a], p.Req[a])
+		fmt.Fprintf(&b, "%s%s:%s/%s/%s@%d ", e, a, p.Perm[a], p.Status[a], p.Req[a], p.Rgen[a])
 	}
 	for _, i := range invIds {
 		iv := p.Inv[i]
